@@ -6,6 +6,11 @@ HERE = os.path.dirname(os.path.dirname(os.path.abspath(__file__)))
 
 # id -> (category, technique, level text, level note, design ref)
 CHECKS = {
+ "C08": ("exploration",
+         "fuzzing / property-based testing under supervised worker processes (panic, process death, CPU budget)",
+         "Byte strings, token soups, bracket soups, nested parentheses / blocks / cast-like prefixes, generated programs (valid and with 1-3 structural mutations incl. extreme literals and unterminated constructs), mutated copies of the repository's own inputs and a 45-entry catalogue of unsupported or unusual constructs (also crossed with API defines) are compiled for 5 targets x {all, named, no-pipeline} x layout validation x API defines inside supervised worker processes. A panic (caught, keyed by source file + message), a dead worker (stack overflow, abort), an empty diagnostic or CPU time beyond 2 s per 4 KB (re-run alone before reporting) is a violation. 40 000 inputs quick, 1.2 M thorough.",
+         "Built with debug assertions and overflow checks on (as the repository's cargo test). One recorded finding: KF-C08-1 (slot arithmetic overflow for gigantic resource arrays). Inputs above about 6 KB and memory exhaustion are not explored.",
+         "DESIGN.md section 3, C08"),
  "C05": ("exploration",
          "property-based testing: metadata vs annotations parsed back from the emitted text, reachability model for is_used",
          "Generated programs with 1-10 bound globals of every object kind, arrays, bindless and unbounded arrays, explicit groups in three spellings, names that are reserved in a target language, reader call graphs and 1-3 pipelines are compiled for four target configurations in all / named / no-pipeline mode. The emitted text is scanned for register / vk::binding / vk::offset / [[id]] annotations, entry points and numthreads, and compared in both directions with the metadata (name, group, slot or inline offset, descriptor type via a per-dialect table, count, bindless and static-sampler flags, inline blocks, stage entry points and thread-group sizes); is_used is compared with reachability over the source call graph. 5 000 cases quick, 100 000 thorough.",
